@@ -326,7 +326,7 @@ def c04(ctx):
     rows = gen_code_table.generate()
     badrows = {f: r for f, r in rows.items() if r["bad"] or not r["code_fn_ok"] or r["reads_diagnostics"] or not r["code"]}
     ctx.obligation("translator: coq/Gen/CodeTable.v regenerated from src/rules/*.rs (%d rule files; unclassifiable/foreign-code sites: %s)" % (len(rows), json.dumps(badrows)[:600]), True)
-    r = PP.pipeline_check(ctx, "C04", {"force": None, "clauses": ["C03"]}, n=4000 if ctx.tier == "quick" else 40000)
+    r = PP.pipeline_check(ctx, "C04", {"force": None, "clauses": ["C03", "C06"]}, n=4000 if ctx.tier == "quick" else 40000)
     if r is None:
         return
     scs, outs, outs0, builtin = r
@@ -408,7 +408,20 @@ def c04(ctx):
         for rs in sets:
             small.append(dict(base, rules=rs))
         smeta.append((k, own, len(sets)))
-    sres = lib.run_vh("lint", small, per_case_timeout=5)
+    # noisy and deep files: a rule's output must not depend on how much the other rules report or how deep they recursed
+    noisy_src = "debugger;\n" * 1100 + "var legacy = 1;\nif (legacy == 2) {}\nconsole.log(legacy);\n"
+    deep_src = "x = " + "(" * 250 + "a == b" + ")" * 250 + ";\nvar w = 1;\n"
+    wide_src = "var " + ", ".join("v%d = %d" % (i, i) for i in range(1500)) + ";\nif (v1 == 2) { debugger; }\n"
+    deep_sweep = ["x = " + "(" * d + "a == b" + ")" * d + ";\n" for d in range(236, 266, 2)]
+    for psrc in [noisy_src, deep_src, wide_src] + deep_sweep:
+        for own in ("no-var", "eqeqeq", "no-empty", "no-console", "no-debugger"):
+            base = {"src": psrc, "media": "ts"}
+            k = len(small)
+            sets = [[own], [own, "ban-unused-ignore"], ["no-debugger", "no-empty", own], ["ban-types", "default-param-last", "camelcase", own], "all"]
+            for rs in sets:
+                small.append(dict(base, rules=rs))
+            smeta.append((k, own, len(sets)))
+    sres = lib.run_vh("lint", small, per_case_timeout=20)
     for (k, own, ns) in smeta:
         if status(sres[k]) != "ok":
             continue
@@ -462,7 +475,8 @@ def c09(ctx):
     progs = [{"src": s["src"], "media": rng.choice(MEDIA), "rules": "all"} for s in sample_corpus(rng, 1500 if ctx.tier == "quick" else 10 ** 6)]
     # rules that compute positions by hand: every test program of theirs, every prefix
     POSITION_RULES = ("prefer_ascii", "no_irregular_whitespace", "ban_untagged_todo", "ban_ts_comment", "jsx_curly_braces", "ban_untagged_ignore",
-                      "no_invalid_triple_slash_reference", "jsx_no_unescaped_entities", "jsx_props_no_spread_multi", "jsx_boolean_value", "no_control_regex")
+                      "no_invalid_triple_slash_reference", "jsx_no_unescaped_entities", "jsx_props_no_spread_multi", "jsx_boolean_value", "no_control_regex",
+                      "no_process_global", "no_node_globals", "no_window", "no_window_prefix", "verbatim_module_syntax", "triple_slash_reference", "no_external_imports")
     hand = [{"src": s["src"], "media": "tsx" if s["rule_file"].startswith("jsx") else rng.choice(["ts", "js"]), "rules": [s["rule_file"].replace("_", "-")], "allprefixes": True}
             for s in get_corpus() if s["rule_file"] in POSITION_RULES]
     progs += hand
@@ -645,12 +659,15 @@ def c01(ctx):
     for i in range(0, len(pats), 4):
         body = []
         for q in pats[i:i + 4]:
-            if "\n" in q or "/" in q or q == "" or "\r" in q:
-                body.append("new RegExp(%s, %s);" % (json.dumps(q), json.dumps(RX.gen_flags(rng))))
-            else:
-                body.append("x = /%s/%s;" % (q, rng.choice(["", "u", "g", "gu"])))
-                body.append("new RegExp(%s);" % json.dumps(q))
+            # string forms never break the JS lexer: the same text with u, without u, with other flags, and with unknown flags
+            body.append("new RegExp(%s, %s);" % (json.dumps(q), json.dumps(rng.choice(["u", "gu", "u"]))))
+            body.append("new RegExp(%s);" % json.dumps(q))
+            body.append("new RegExp(%s, %s);" % (json.dumps(q), json.dumps(RX.gen_flags(rng))))
+            body.append("new RegExp(%s, flagsVar);" % json.dumps(q))
         cases.append({"src": "\n".join(body), "media": "js", "rules": "all"})
+    for q in pats[:: 7]:
+        if "\n" not in q and "/" not in q and q and "\r" not in q:
+            cases.append({"src": "x = /%s/%s;\ny = /%s/;" % (q, rng.choice(["u", "gu", "", "g"]), q), "media": "js", "rules": "all"})
     # (4) deep nesting / long inputs (time proportional to input size)
     for n in ([200, 1000] if quick else [200, 1000, 4000]):
         cases.append({"src": "(" * n + "1" + ")" * n + ";", "media": "js", "rules": "all"})
@@ -659,6 +676,28 @@ def c01(ctx):
         cases.append({"src": "a" + " + a" * (n * 5) + ";", "media": "ts", "rules": "all"})
         cases.append({"src": "/" + "(a|b)*" * n + "/;", "media": "js", "rules": "all"})
         cases.append({"src": "// deno-lint-ignore " + "no-debugger," * n + "\ndebugger;" * 50, "media": "ts", "rules": "all"})
+    # (8) WIDE but shallow inputs under an ordinary 8 MiB stack (the other runs use a 256 MiB stack so that swc's own recursion on
+    #     deeply nested input does not hide everything else): recursion proportional to the WIDTH of the input is a defect
+    W = 30000 if quick else 200000
+    WB = 200000   # binding lists: wide enough for recursion per binding to exhaust 8 MiB
+    wide = [
+        "let [" + ", ".join("v%d" % i for i in range(WB)) + "] = data(); v0 = 1;",
+        "let {" + ", ".join("k%d" % i for i in range(WB)) + "} = data(); k0 = 1;",
+        "function h(" + ", ".join("r%d" % i for i in range(WB // 2)) + ") { r0 = 1; }",
+        "var " + ", ".join("a%d = %d" % (i, i) for i in range(W)) + ";",
+        "const o = {" + ", ".join("p%d: %d" % (i, i) for i in range(W)) + "};",
+        "const arr = [" + ", ".join(str(i) for i in range(W)) + "];",
+        "f(" + ", ".join("x%d" % (i % 50) for i in range(W)) + ");",
+        "\n".join("s%d();" % (i % 90) for i in range(W)),
+        "switch (d) {" + " ".join("case %d: break;" % i for i in range(W // 4)) + "}",
+        "class K {" + " ".join("m%d() {}" % i for i in range(W // 4)) + "}",
+        "\n".join("import i%d from 'm%d';" % (i, i) for i in range(W // 8)),
+        "function g(" + ", ".join("q%d" % i for i in range(W // 8)) + ") {}",
+        "x = `" + "${a}b" * (W // 8) + "`;",
+        "// deno-lint-ignore " + " ".join("c%d" % i for i in range(W // 4)) + "\ndebugger;",
+    ]
+    wide_cases = [{"src": w, "media": "ts", "rules": "all"} for w in wide]
+    wres = lib.run_vh("lint", wide_cases, per_case_timeout=120.0, stack_mb=8, jobs=len(wide_cases))
     t = time.time()
     res = lib.run_vh("lint", cases, per_case_timeout=3.0)
     trel = time.time() - t
@@ -672,7 +711,7 @@ def c01(ctx):
     seen = collections.Counter()
     nontriv = set()
     failing = []
-    for build, cs, rs in (("release", cases, res), ("debug", dbg_cases, dres)):
+    for build, cs, rs in (("release", cases, res), ("debug", dbg_cases, dres), ("release", wide_cases, wres)):
         for c, r in zip(cs, rs):
             st = status(r)
             stat[build + ":" + st] += 1
